@@ -603,6 +603,7 @@ fn c13_sync_sequences(rep: &mut Report, tier: Tier) {
         Sync(u8, usize), // bitmask-ordered digest list id, target
         Arrive(usize),
         Wait,
+        Cleanup(u64), // consensus reports its round: 1 (nothing is gc_depth rounds old) or 60 (requests tagged <= 10 are collected)
     }
     let lists: Vec<Vec<usize>> = vec![vec![0], vec![1], vec![0, 1], vec![1, 0]];
     let mut alphabet = Vec::new();
@@ -614,6 +615,8 @@ fn c13_sync_sequences(rep: &mut Report, tier: Tier) {
     alphabet.push(Op::Arrive(0));
     alphabet.push(Op::Arrive(1));
     alphabet.push(Op::Wait);
+    alphabet.push(Op::Cleanup(1));
+    alphabet.push(Op::Cleanup(60));
     let maxlen = tier.pick(3usize, 4usize);
     let mut seqs: Vec<Vec<Op>> = Vec::new();
     fn rec<T: Clone>(len: usize, a: &[T], cur: &mut Vec<T>, out: &mut Vec<Vec<T>>) {
@@ -644,6 +647,10 @@ fn c13_sync_sequences(rep: &mut Report, tier: Tier) {
         let mut stored = [false, false];
         let mut bad: Option<(String, String)> = None;
         let mut wanted_since: [Option<usize>; 2] = [None, None];
+        // reference garbage collection: a request carries the round consensus last reported when it was
+        // registered and is dropped by Cleanup(r) only if r >= gc_depth and tag <= r - gc_depth
+        let mut cur_round = 0u64;
+        let mut tag: [u64; 2] = [0, 0];
         for (k, op) in seq.iter().enumerate() {
             match op {
                 Op::Sync(l, t) => {
@@ -654,6 +661,7 @@ fn c13_sync_sequences(rep: &mut Report, tier: Tier) {
                     for x in &lists[*l as usize] {
                         if !stored[*x] && wanted_since[*x].is_none() {
                             wanted_since[*x] = Some(k);
+                            tag[*x] = cur_round;
                         }
                     }
                 }
@@ -663,6 +671,20 @@ fn c13_sync_sequences(rep: &mut Report, tier: Tier) {
                 }
                 Op::Wait => {
                     node.rt.run_for(2_100);
+                }
+                Op::Cleanup(r) => {
+                    let tx = node.tx_cmd.clone();
+                    let r = *r;
+                    node.rt.block_on(async move { tx.send(ConsensusMempoolMessage::Cleanup(r)).await.unwrap() });
+                    cur_round = r;
+                    if r >= 50 {
+                        for x in 0..2 {
+                            if wanted_since[x].is_some() && tag[x] <= r - 50 {
+                                wanted_since[x] = None;
+                                requested[x].clear();
+                            }
+                        }
+                    }
                 }
             }
             node.rt.quiesce();
